@@ -82,6 +82,12 @@ static void add_binary_cases() {
     {"Evolve(op,t)(assign-sized)", [](SU_vector& a, SU_vector& b) { SU_vector r(a.Dim()); r = a.Evolve(b, 0.7); use(r); }},
     {"Evolve(op,t)(+=)", [](SU_vector& a, SU_vector& b) { SU_vector r(a.Dim()); r += a.Evolve(b, 0.7); use(r); }},
     {"Evolve(op,t)(-=,op-sized-target)", [](SU_vector& a, SU_vector& b) { SU_vector r(b.Dim()); r -= a.Evolve(b, 0.7); use(r); }},
+    {"(a+a).Evolve(b+b,0.7)", [](SU_vector& a, SU_vector& b) { SU_vector r = (a + a).Evolve(b + b, 0.7); use(r); }},
+    {"(a+a).Evolve(b+b,0)", [](SU_vector& a, SU_vector& b) { SU_vector r = (a + a).Evolve(b + b, 0.0); use(r); }},
+    {"(a+a).Evolve(b+b,-0.0)", [](SU_vector& a, SU_vector& b) { SU_vector r = (a + a).Evolve(b + b, -0.0); use(r); }},
+    {"(a*2).Evolve(b,0)", [](SU_vector& a, SU_vector& b) { SU_vector r = (a * 2.0).Evolve(b, 0.0); use(r); }},
+    {"a.Evolve(b,0)", [](SU_vector& a, SU_vector& b) { SU_vector r = a.Evolve(b, 0.0); use(r); }},
+    {"a.Evolve(-b,0)", [](SU_vector& a, SU_vector& b) { SU_vector r = a.Evolve(-b, 0.0); use(r); }},
     {"Rotate(matrix)", [](SU_vector& a, SU_vector& b) { GslMat U(ref::eye(b.Dim())); SU_vector r = a.Rotate(U.g); use(r); }},
   };
   for (int d1 = 2; d1 <= 6; d1++) for (int d2 = 2; d2 <= 6; d2++) if (d1 != d2)
